@@ -22,7 +22,8 @@ inductive Ev where
   | ocStart | ocEnd | ocPanic
   | odRun (byHup : Bool)
   | prepStart | prepEnd
-  | fdClose | slotFree | epollAdd | epollDel
+  | fdClose (byDetach : Bool)   -- close(2) of the descriptor; `byDetach`: issued by the goroutine inside Detach()
+  | slotFree | epollAdd | epollDel
   | closingSeen (v : Nat)      -- an actor observed `closing = v` (v = 9: non-zero, value unknown)
   | userClose                  -- a user Close/Detach won closeBy, or forced `closing := user`
   | detachWon                  -- the Detach call won closeBy
@@ -111,9 +112,12 @@ def feed (cfg : Cfg) (a : Acc) : Ev → Acc
       { a3 with odRuns := a.odRuns + 1 }
   | .prepStart => { a with prepStarted := true }
   | .prepEnd => { a with prepEnded := true }
-  | .fdClose =>
+  | .fdClose byDetach =>
       let a1 := if a.fdCloses ≥ 1 then a.fail "C05 descriptor closed twice" else a
       let a2 := if a.detachWon then a1.fail "C05 descriptor closed although Detach closed the connection" else a1
+      -- whoever won closeBy: when the teardown runs INSIDE the Detach call (after its `detaching` store, in program order)
+      -- the descriptor now belongs to the caller and must stay open
+      let a2 := if byDetach then a2.fail "C05 descriptor closed by the teardown running inside Detach()" else a2
       { a2 with fdCloses := a.fdCloses + 1 }
   | .slotFree =>
       let a1 := if a.slotFrees ≥ 1 then a.fail "C05 poller slot freed twice" else a
